@@ -165,6 +165,8 @@ abbrev Ident := List UInt8
 structure PeerInfo where
   uri : Nat
   strat : Strat
+  /-- the pipe that owns this identity's forward mapping (`PeerInfo::pipe_read_id`) -/
+  pipe : Nat
 deriving DecidableEq, Repr
 
 /-- map insert / remove on association lists (keys unique) -/
@@ -184,34 +186,45 @@ structure RouterMap where
   rev : List (Nat × Ident) := []           -- read_pipe_to_identity
 deriving DecidableEq, Repr
 
+/-- does the forward entry of `id` belong to `pipe`? -/
+def ownedBy (fwd : List (Ident × PeerInfo)) (id : Ident) (pipe : Nat) : Bool :=
+  match amGet fwd id with
+  | some info => info.pipe == pipe
+  | none => false
+
 def RouterMap.addPeer (m : RouterMap) (id : Ident) (pipe uri : Nat) : RouterMap :=
-  let fwd1 := amInsert m.fwd id { uri := uri, strat := .default }
+  let fwd1 := amInsert m.fwd id { uri := uri, strat := .default, pipe := pipe }
   let old := amGet m.rev pipe
   let rev1 := amInsert m.rev pipe id
   match old with
-  | some oldId => if oldId != id then { fwd := amRemove fwd1 oldId, rev := rev1 } else { fwd := fwd1, rev := rev1 }
+  | some oldId =>
+    if oldId != id && ownedBy fwd1 oldId pipe then { fwd := amRemove fwd1 oldId, rev := rev1 }
+    else { fwd := fwd1, rev := rev1 }
   | none => { fwd := fwd1, rev := rev1 }
 
 def RouterMap.removeByPipe (m : RouterMap) (pipe : Nat) : RouterMap :=
   match amGet m.rev pipe with
   | none => m
-  | some id => { fwd := amRemove m.fwd id, rev := amRemove m.rev pipe }
+  | some id =>
+    -- the identity may meanwhile be owned by a newer pipe (collision): keep that mapping
+    match amGet m.fwd id with
+    | some info =>
+      if info.pipe != pipe then { m with rev := amRemove m.rev pipe }
+      else { fwd := amRemove m.fwd id, rev := amRemove m.rev pipe }
+    | none => { m with rev := amRemove m.rev pipe }
 
 def RouterMap.removeByIdentity (m : RouterMap) (id : Ident) : RouterMap :=
   match amGet m.fwd id with
   | none => m
-  | some _ =>
-    -- the reverse entry removed is "the first one found"; HashMap order is arbitrary, the model takes the first
-    -- in insertion order (the harness compares only when at most one candidate exists)
-    match m.rev.find? (fun e => e.2 == id) with
-    | some e => { fwd := amRemove m.fwd id, rev := amRemove m.rev e.1 }
-    | none => { m with fwd := amRemove m.fwd id }
+  | some info =>
+    if amGet m.rev info.pipe == some id then { fwd := amRemove m.fwd id, rev := amRemove m.rev info.pipe }
+    else { m with fwd := amRemove m.fwd id }
 
 def RouterMap.updateIdentity (m : RouterMap) (pipe : Nat) (newId : Ident) (uri : Nat) (s : Strat) : RouterMap :=
   let fwd1 := match amGet m.rev pipe with
-    | some oldId => if oldId != newId then amRemove m.fwd oldId else m.fwd
+    | some oldId => if oldId != newId && ownedBy m.fwd oldId pipe then amRemove m.fwd oldId else m.fwd
     | none => m.fwd
-  { fwd := amInsert fwd1 newId { uri := uri, strat := s }, rev := amInsert m.rev pipe newId }
+  { fwd := amInsert fwd1 newId { uri := uri, strat := s, pipe := pipe }, rev := amInsert m.rev pipe newId }
 
 def RouterMap.lookup (m : RouterMap) (id : Ident) : Option PeerInfo := amGet m.fwd id
 def RouterMap.identityOfPipe (m : RouterMap) (pipe : Nat) : Option Ident := amGet m.rev pipe
